@@ -30,6 +30,10 @@ class GroundOb:
         self.witness = witness
 
 
+# development aid (seed trials on a scratch copy): VERIF_OUT redirects evidence/ and replays/; registered commands never set it
+OUT = os.environ.get("VERIF_OUT") or VERIF
+
+
 def load_known():
     p = os.path.join(VERIF, "known_findings.json")
     if not os.path.exists(p):
@@ -157,7 +161,7 @@ def run_property(pid: str, tier: str, seed: int, write_lock=False, verbose=False
     violations = []
     known_hits = []
     spurious = []
-    os.makedirs(os.path.join(VERIF, "replays"), exist_ok=True)
+    os.makedirs(os.path.join(OUT, "replays"), exist_ok=True)
     seen_cids = set()
     # known findings given as an *excluded witness condition* (flag): re-verify the function with the condition
     # excluded; what then discharges fails only because of the listed finding, anything else is a new violation
@@ -197,7 +201,7 @@ def run_property(pid: str, tier: str, seed: int, write_lock=False, verbose=False
         doc = {"property": pid, "obligation": cid, "function": ob.func, "kind": ob.kind, "clause": ob.clause,
                "path": list(ob.trace), "solver": ob.result.get("solver"), "solver_output": ob.result.get("raw", "")[:4000],
                "model": model, "meta": ob.meta, "replay": rep, "repo": repo_root()}
-        with open(os.path.join(VERIF, path), "w") as f:
+        with open(os.path.join(OUT, path), "w") as f:
             json.dump(doc, f, indent=1, default=str)
         if rep["status"] == "reproduced":
             violations.append((cid, path, ""))
@@ -227,7 +231,7 @@ def run_property(pid: str, tier: str, seed: int, write_lock=False, verbose=False
                     rep = gr(g) or rep
                 except Exception as e:
                     rep = {"status": "no-replay", "detail": f"replay harness error: {e!r}"}
-            with open(os.path.join(VERIF, path), "w") as f:
+            with open(os.path.join(OUT, path), "w") as f:
                 json.dump({"property": pid, "obligation": g.oid, "detail": g.detail, "witness": g.witness,
                            "backend": g.backend, "replay": rep, "repo": repo_root()}, f, indent=1, default=str)
             violations.append((g.oid, path, "" if rep.get("status") == "reproduced" else " no-failing-input-found"))
@@ -239,7 +243,7 @@ def run_property(pid: str, tier: str, seed: int, write_lock=False, verbose=False
                 known_hits.append(kf)
                 continue
             path = os.path.join("replays", f"{pid}-{safe(g.oid)}.json")
-            with open(os.path.join(VERIF, path), "w") as f:
+            with open(os.path.join(OUT, path), "w") as f:
                 json.dump({"property": pid, "obligation": g.oid, "detail": g.detail, "witness": g.witness,
                            "backend": g.backend, "repo": repo_root(),
                            "replay": {"status": "reproduced", "detail": "bounded stand-in: the failing input was "
@@ -296,8 +300,8 @@ def run_property(pid: str, tier: str, seed: int, write_lock=False, verbose=False
         "wall_s": round(time.time() - t0, 2),
         "violations": len(violations),
     }
-    os.makedirs(os.path.join(VERIF, "evidence"), exist_ok=True)
-    with open(os.path.join(VERIF, "evidence", f"{pid}.json"), "w") as f:
+    os.makedirs(os.path.join(OUT, "evidence"), exist_ok=True)
+    with open(os.path.join(OUT, "evidence", f"{pid}.json"), "w") as f:
         json.dump(ev, f, indent=1, default=str)
 
     # ---- verdict ---------------------------------------------------------------------------------------
